@@ -28,7 +28,12 @@ for f in sorted(os.listdir(props)):
     else:
         reg[pid] = {'modules': ['MsmVerif.Props.' + modname], 'theorems': thms}
 # refinement theorems (translated kernel = model), MsmVerif/Refine/<Topic>.lean: obligations of the properties whose kernels they cover
-REFINE_MAP = {'Msm': ['C01', 'C11'], 'Coring': ['C05'], 'Events': ['C06', 'C11'], 'Mcmc': ['C07', 'C08'], 'Compare': ['C13']}
+# an entry is a property id, or (property id, regex on the theorem name) when only part of a module concerns the property
+REFINE_MAP = {'Msm': ['C01', 'C11'], 'Coring': ['C05'], 'Events': ['C06', 'C11'], 'Mcmc': ['C07', 'C08'], 'Compare': ['C13'],
+              'Norm': [('C01', r'row_normalize'), ('C03', r'row_normalize'), ('C04', r'row_normalize'), ('C19', r'split_array'),
+                       ('C09', r'calc_times')],
+              'Ergodic': ['C14', ('C04', r'is_ergodic|ergodic_mask|is_tmat|is_quadratic|npPow'), ('C03', r'is_ergodic|is_tmat|is_quadratic|npPow')],
+              'HS': ['C03']}
 refine = os.path.join(HOME, 'lean', 'MsmVerif', 'Refine')
 for topic, pids in REFINE_MAP.items():
     f = os.path.join(refine, topic + '.lean')
@@ -44,10 +49,12 @@ for topic, pids in REFINE_MAP.items():
         if mm.group(2) in real_names:
             thms.append({'name': ns + '.' + mm.group(2), 'statement': '[refinement: translated kernel = model] ' + doc[-600:],
                          'module': 'MsmVerif.Refine.' + topic})
-    for pid in pids:
+    for ent in pids:
+        pid, pat = (ent, None) if isinstance(ent, str) else ent
+        mine = [t for t in thms if pat is None or re.search(pat, t['name'].split('.')[-1])]
         reg.setdefault(pid, {'modules': [], 'theorems': []})
         reg[pid]['modules'].append('MsmVerif.Refine.' + topic)
-        reg[pid]['theorems'] += thms
+        reg[pid]['theorems'] += mine
 DEFAULT_MODULES = {'C01': 'Msm', 'C02': 'Heap', 'C03': 'Linalg', 'C04': 'Linalg', 'C05': 'Coring', 'C06': 'Events', 'C07': 'Mcmc',
                    'C08': 'Events', 'C09': 'Linalg', 'C10': 'Timescales', 'C11': 'Msm', 'C12': 'Basic', 'C13': 'Compare', 'C14': 'Linalg',
                    'C15': 'Relabel', 'C16': 'TextIO', 'C17': 'Basic', 'C18': 'Heap', 'C19': 'TextIO', 'C20': 'Filter'}
